@@ -221,6 +221,7 @@ struct Prop {
 
 // Run check(c) in a forked child so that a sanitizer abort or a signal becomes
 // an ordinary, shrinkable failure (enabled with VERIF_FORK=1).
+static inline void begin_case(const KV &c);
 static inline std::string forked_check(const Prop &p, const KV &c) {
     int fds[2], efds[2];
     if (pipe(fds) != 0 || pipe(efds) != 0) return "pipe() failed";
@@ -276,6 +277,7 @@ static inline bool run_prop(const Prop &p) {
         for (auto &t : tags) ++r.cur->classes[t];
         static const bool fork_mode = getenv("VERIF_FORK") != nullptr;
         static const bool only_crash = getenv("VERIF_ONLY_CRASH") != nullptr;
+        begin_case(c);
         std::string err = fork_mode ? forked_check(p, c) : p.check(c);
         if (only_crash && err.compare(0, 6, "CRASH:") != 0) { if (!err.empty()) ++r.cur->classes["semantic-mismatch-ignored(other property)"]; err.clear(); }
         if (!err.empty()) {
@@ -318,6 +320,7 @@ static inline int harness_main(int argc, char **argv, const std::vector<Prop> &p
         if (!parse_flat_object(s, pos, c)) { fprintf(stderr, "bad case object\n"); return 2; }
         for (auto &p : props) {
             if (p.name != pname) continue;
+            begin_case(c);
             std::string err = getenv("VERIF_FORK") ? forked_check(p, c) : p.check(c);
             if (getenv("VERIF_ONLY_CRASH") && err.compare(0, 6, "CRASH:") != 0) err.clear();
             if (err.empty()) { printf("REPLAY-PASS %s\n", pname.c_str()); return 0; }
@@ -432,13 +435,48 @@ static inline void xfree(void *p, size_t n) {
 }
 
 // Exact-size copy so that overruns become sanitizer errors / guard-page faults;
-// nullptr when empty.
+// nullptr when empty.  Without guard pages the buffer starts at a varying address
+// alignment (8k + 0..7, a deterministic function of the case and of the order of
+// allocation): word-at-a-time fast paths in the library depend on the alignment of
+// caller data.  The pad in front of the buffer is poisoned under ASan so that
+// underruns are still seen.
+#if defined(__SANITIZE_ADDRESS__)
+#include <sanitizer/asan_interface.h>
+#define VH_POISON(p, n) ASAN_POISON_MEMORY_REGION((p), (n))
+#define VH_UNPOISON(p, n) ASAN_UNPOISON_MEMORY_REGION((p), (n))
+#else
+#define VH_POISON(p, n) ((void)0)
+#define VH_UNPOISON(p, n) ((void)0)
+#endif
+struct AlignState { unsigned ctr = 0, salt = 0; };
+static inline AlignState &align_state() { static thread_local AlignState a; return a; }   // per thread: C16 runs the workload on many threads
+static inline void begin_case(const KV &c) {
+    uint32_t h = 2166136261u;
+    for (auto &kv : c) for (char ch : kv.second) h = (h ^ (uint8_t)ch) * 16777619u;
+    align_state().ctr = 0;
+    align_state().salt = h >> 7;
+}
 struct Buf {
     uint8_t *p;
     size_t n;
-    explicit Buf(size_t n_, uint8_t fill = 0xA5) : p(n_ ? (uint8_t *)xalloc(n_) : nullptr), n(n_) { if (p) memset(p, fill, n); }
-    explicit Buf(const Bytes &b) : p(b.size() ? (uint8_t *)xalloc(b.size()) : nullptr), n(b.size()) { if (p) memcpy(p, b.data(), n); }
-    ~Buf() { xfree(p, n); }
+    unsigned off = 0;       // bytes of pad in front (non-guard mode)
+    static uint8_t *get(size_t n, unsigned &off) {
+        if (!n) return nullptr;
+        if (guard_mode()) { off = 0; return (uint8_t *)xalloc(n); }
+        AlignState &a = align_state();
+        off = (a.salt + 5 * a.ctr++) & 7;
+        uint8_t *base = (uint8_t *)malloc(n + off);       // malloc results are 16-byte aligned
+        if (off) VH_POISON(base, off);
+        return base + off;
+    }
+    explicit Buf(size_t n_, uint8_t fill = 0xA5) : p(nullptr), n(n_) { p = get(n_, off); if (p) memset(p, fill, n); }
+    explicit Buf(const Bytes &b) : p(nullptr), n(b.size()) { p = get(n, off); if (p) memcpy(p, b.data(), n); }
+    ~Buf() {
+        if (!p) return;
+        if (guard_mode()) { xfree(p, n); return; }
+        if (off) VH_UNPOISON(p - off, off);
+        free(p - off);
+    }
     Buf(const Buf &) = delete;
     Buf &operator=(const Buf &) = delete;
     Bytes bytes() const { return p ? Bytes(p, p + n) : Bytes(); }
